@@ -33,7 +33,8 @@ impl Dump {
     std::mem::replace(&mut self.kids, saved)
   }
   fn known_true(&self, e: &Expr) -> bool {
-    matches!(e.cast_to_bool(self.ectx), (_, SwcValue::Known(true)))
+    // the analyzer's `is_always_true`: known to be true *and* free of side effects (`foo() || true` may throw)
+    matches!(e.cast_to_bool(self.ectx), (deno_ast::swc::utils::Purity::Pure, SwcValue::Known(true)))
   }
   fn stmts(&mut self, ss: &[Stmt]) -> Vec<Value> {
     ss.iter().map(|s| self.stmt(s)).collect()
